@@ -23,8 +23,8 @@ except Exception:
     pass
 
 checks = []
-for pid in sorted(P.PROPS):
-    cfg = P.PROPS[pid]
+for pid in sorted(P.CLAIMED):
+    cfg = P.CLAIMED[pid]
     checks.append({
         "property_id": pid,
         "quick_cmd": "./check %s --tier quick" % pid,
@@ -46,7 +46,7 @@ for pid in sorted(P.PROPS):
 
 na = []
 for pid in ALL:
-    if pid not in P.PROPS:
+    if pid not in P.CLAIMED:
         na.append({"property_id": pid, "reason": P.NOT_CLAIMED.get(pid, "check not built yet (work in progress); no claim is made")})
 
 man = {
@@ -61,7 +61,7 @@ man = {
         "add_only": True,
     },
     "engines": [
-        {"name": "runner", "path": "/verif/check", "serves_properties": sorted(P.PROPS),
+        {"name": "runner", "path": "/verif/check", "serves_properties": sorted(P.CLAIMED),
          "kind_free_text": "python driver: builds a go test -overlay per job from /repo's working tree, runs monitors/workloads "
                            "(Go, in-package, tag verif, -race where the race detector is an oracle), offline checkers "
                            "(porcupine, python), merges observations into evidence"},
